@@ -40,6 +40,13 @@ import (
 //	ws  <host> <path> <routeUser|-> <up tok> <down tok>      => be=.. rt=.. st=101 cu=<hex Connection|Upgrade seen by backend> up=<len.hash> down=<len.hash>
 //	connect <host> <routeUser|-> <up tok> <down tok>          => be=.. rt=.. st=200 t=<hex target> up=.. down=..
 //	silent <hostSilent> <hostOther>   => st=504 bound=ok|slow|fast other=<code>:<be>
+//	treq <the 13 fields of req> <upGaps|-> <thinkMs> <downGaps|->   => as req (+ " end=cut" when the user's read of the body failed)
+//	      TIMED exchange: the user sends the request body in len(upGaps) pieces, sleeping upGaps[i] ms before piece i;
+//	      the backend sleeps thinkMs before its header block and downGaps[i] ms before piece i of its body
+//	      (gaps = g1.g2.…; pieces = the body cut into equal parts). ResponseHeaderTimeoutS is 1.
+//	tws <host> <path> <routeUser|-> <up tok> <down tok> <gaps>   => as ws;  tconnect <host> <routeUser|-> <up> <down> <gaps> => as connect
+//	      gaps = u1.d1.u2.d2…: k rounds; round i: the user idles u_i ms, sends piece i of up, the backend reads it,
+//	      idles d_i ms, sends piece i of down, the user reads it
 //
 // The user side talks raw HTTP/1.1 over loopback TCP from 127.0.0.<2+cli> on persistent
 // connections (keep-alive request sequences).
@@ -64,6 +71,47 @@ type httpEngRespSpec struct {
 	keep   bool
 	tunUp  int // upgrade / connect: bytes to read from the user
 	tunDn  []byte
+	// timed exchanges
+	think   time.Duration // before the response header block
+	dnGaps  []int         // ms before each piece of the response body
+	tunGaps []int         // tunnels: u1.d1.u2.d2… (nil = one round, no idling)
+}
+
+// b cut into k pieces of len(b)/k bytes, the last one takes the remainder
+func httpEngSplit(b []byte, k int) [][]byte {
+	if k <= 1 {
+		return [][]byte{b}
+	}
+	n := len(b) / k
+	out := make([][]byte, 0, k)
+	for i := 0; i < k; i++ {
+		if i == k-1 {
+			out = append(out, b)
+		} else {
+			out = append(out, b[:n])
+			b = b[n:]
+		}
+	}
+	return out
+}
+
+func httpEngGaps(t string) []int {
+	if t == "-" || t == "" {
+		return nil
+	}
+	var out []int
+	for _, p := range strings.Split(t, ".") {
+		out = append(out, atoi(p))
+	}
+	return out
+}
+
+func httpEngSum(g []int) time.Duration {
+	n := 0
+	for _, x := range g {
+		n += x
+	}
+	return time.Duration(n) * time.Millisecond
 }
 
 type httpEngRoute struct {
@@ -307,22 +355,79 @@ func (st *httpEngState) backend(id, connNo int, mode string, c net.Conn) {
 			} else {
 				fmt.Fprintf(c, "HTTP/1.1 101 Switching Protocols\r\nConnection: Upgrade\r\nUpgrade: websocket\r\n\r\n")
 			}
-			up := make([]byte, spec.tunUp)
-			_ = c.SetReadDeadline(time.Now().Add(5 * time.Second))
-			n, _ := io.ReadFull(br, up)
-			seen.up = up[:n]
-			_, _ = c.Write(spec.tunDn)
+			gaps := spec.tunGaps
+			if len(gaps) < 2 {
+				gaps = []int{0, 0}
+			}
+			k := len(gaps) / 2
+			_ = c.SetReadDeadline(time.Now().Add(5*time.Second + httpEngSum(gaps)))
+			dns := httpEngSplit(spec.tunDn, k)
+			for i, upn := range httpEngSplit(make([]byte, spec.tunUp), k) {
+				up := make([]byte, len(upn))
+				n, err := io.ReadFull(br, up)
+				seen.up = append(seen.up, up[:n]...)
+				if err != nil {
+					break
+				}
+				time.Sleep(time.Duration(gaps[2*i+1]) * time.Millisecond)
+				if _, err := c.Write(dns[i]); err != nil {
+					break
+				}
+			}
 			st.seenCh <- seen
 			_, _ = io.Copy(io.Discard, br)
 			return
 		}
 		st.seenCh <- seen
+		if spec.think > 0 {
+			time.Sleep(spec.think)
+		}
 		var w bytes.Buffer
 		fmt.Fprintf(&w, "HTTP/1.1 %d %s\r\n", spec.status, http.StatusText(spec.status))
 		for _, kv := range spec.hdr {
 			fmt.Fprintf(&w, "%s: %s\r\n", kv[0], kv[1])
 		}
 		noBody := seen.method == "HEAD"
+		if len(spec.dnGaps) > 0 && !noBody && (spec.kind == "cl" || spec.kind == "ch" || spec.kind == "eof") {
+			// timed body: header block at once, then the pieces at their times
+			switch spec.kind {
+			case "cl":
+				fmt.Fprintf(&w, "Content-Length: %d\r\n", len(spec.body))
+			case "ch":
+				w.WriteString("Transfer-Encoding: chunked\r\n")
+			}
+			if !spec.keep || spec.kind == "eof" {
+				w.WriteString("Connection: close\r\n")
+			}
+			w.WriteString("\r\n")
+			if _, err := c.Write(w.Bytes()); err != nil {
+				return
+			}
+			for i, piece := range httpEngSplit(spec.body, len(spec.dnGaps)) {
+				time.Sleep(time.Duration(spec.dnGaps[i]) * time.Millisecond)
+				if len(piece) == 0 {
+					continue
+				}
+				var err error
+				if spec.kind == "ch" {
+					_, err = fmt.Fprintf(c, "%x\r\n%s\r\n", len(piece), piece)
+				} else {
+					_, err = c.Write(piece)
+				}
+				if err != nil {
+					return
+				}
+			}
+			if spec.kind == "ch" {
+				if _, err := io.WriteString(c, "0\r\n\r\n"); err != nil {
+					return
+				}
+			}
+			if !spec.keep || spec.kind == "eof" {
+				return
+			}
+			continue
+		}
 		switch spec.kind {
 		case "cl":
 			fmt.Fprintf(&w, "Content-Length: %d\r\n", len(spec.body))
@@ -528,6 +633,13 @@ func (st *httpEngState) doReq(tok []string) string {
 	bkind, body := httpEngBodySpec(tok[9])
 	spec := &httpEngRespSpec{status: atoi(tok[10]), hdr: httpEngParseHdrs(tok[11]), keep: tok[13] == "1"}
 	spec.kind, spec.body = httpEngBodySpec(tok[12])
+	timed := tok[0] == "treq"
+	var upGaps []int
+	if timed {
+		upGaps = httpEngGaps(tok[14])
+		spec.think = time.Duration(atoi(tok[15])) * time.Millisecond
+		spec.dnGaps = httpEngGaps(tok[16])
+	}
 	st.mu.Lock()
 	st.spec = spec
 	before := st.connSeq
@@ -551,31 +663,68 @@ func (st *httpEngState) doReq(tok []string) string {
 	for _, kv := range hdrs {
 		fmt.Fprintf(&w, "%s: %s\r\n", kv[0], kv[1])
 	}
-	switch bkind {
-	case "cl":
+	var upPieces [][]byte // timed upload: the header block first, then these at their times
+	switch {
+	case len(upGaps) > 0 && (bkind == "cl" || bkind == "ch"):
+		if bkind == "cl" {
+			fmt.Fprintf(&w, "Content-Length: %d\r\n\r\n", len(body))
+		} else {
+			w.WriteString("Transfer-Encoding: chunked\r\n\r\n")
+		}
+		for _, piece := range httpEngSplit(body, len(upGaps)) {
+			if bkind == "ch" && len(piece) > 0 {
+				piece = []byte(fmt.Sprintf("%x\r\n%s\r\n", len(piece), piece))
+			}
+			upPieces = append(upPieces, piece)
+		}
+		if bkind == "ch" {
+			upPieces = append(upPieces, []byte("0\r\n\r\n"))
+		}
+	case bkind == "cl":
 		fmt.Fprintf(&w, "Content-Length: %d\r\n\r\n", len(body))
 		w.Write(body)
-	case "ch":
+	case bkind == "ch":
 		w.WriteString("Transfer-Encoding: chunked\r\n\r\n")
 		httpEngWriteChunked(&w, body)
 	default:
 		w.WriteString("\r\n")
 	}
+	slack := httpEngSum(upGaps) + spec.think + httpEngSum(spec.dnGaps)
 
 	var resp *http.Response
 	var rb []byte
+	cut := false
 	for attempt := 0; ; attempt++ {
 		hc, err := st.client(cli)
 		if err != nil {
 			return "dialerr"
 		}
-		_ = hc.c.SetDeadline(time.Now().Add(10 * time.Second))
+		_ = hc.c.SetDeadline(time.Now().Add(10*time.Second + slack))
 		_, werr := hc.c.Write(w.Bytes())
+		for i, piece := range upPieces {
+			if werr != nil {
+				break
+			}
+			if i < len(upGaps) {
+				time.Sleep(time.Duration(upGaps[i]) * time.Millisecond)
+			}
+			if len(piece) > 0 {
+				if _, e := hc.c.Write(piece); e != nil {
+					break // the proxy gave up on the upload: its answer (if any) is read below
+				}
+			}
+		}
 		if werr == nil {
 			resp, err = http.ReadResponse(hc.br, &http.Request{Method: method})
 			if err == nil {
 				rb, err = io.ReadAll(resp.Body)
 				resp.Body.Close()
+				if err != nil && timed {
+					// a timed body that ends early is a result, not noise: reported, never retried
+					st.dropClient(cli)
+					cut = true
+					break
+				}
 				if err != nil {
 					// answer cut short. Seen about once in 20000 requests on loopback TCP (and on 3 % of
 					// the requests with a body when the backend connection is an unbuffered net.Pipe):
@@ -638,6 +787,9 @@ func (st *httpEngState) doReq(tok []string) string {
 		bn = "page"
 	}
 	fmt.Fprintf(&sb, " ! st=%d hd=%s fr=%s b=%s", resp.StatusCode, httpEngFmtHdr(uh, star), fr, bn)
+	if cut {
+		sb.WriteString(" end=cut")
+	}
 	return sb.String()
 }
 
@@ -656,13 +808,17 @@ func httpEngBodyNote(b []byte, present bool) string {
 }
 
 // ws / connect: one fresh user connection, a raw tunnel after the handshake
-func (st *httpEngState) doTunnel(kind, host, path, userTok, upTok, dnTok string) string {
+func (st *httpEngState) doTunnel(kind, host, path, userTok, upTok, dnTok string, gaps []int) string {
 	user := ""
 	if userTok != "-" {
 		user = unhx(userTok)
 	}
 	up, dn := httpEngTokBytes(upTok), httpEngTokBytes(dnTok)
-	spec := &httpEngRespSpec{tunUp: len(up), tunDn: dn}
+	if len(gaps) < 2 {
+		gaps = []int{0, 0}
+	}
+	rounds := len(gaps) / 2
+	spec := &httpEngRespSpec{tunUp: len(up), tunDn: dn, tunGaps: gaps}
 	if len(dn) == 0 {
 		spec.tunDn = []byte{}
 	}
@@ -676,7 +832,7 @@ func (st *httpEngState) doTunnel(kind, host, path, userTok, upTok, dnTok string)
 		return "dialerr"
 	}
 	defer c.Close()
-	_ = c.SetDeadline(time.Now().Add(6 * time.Second))
+	_ = c.SetDeadline(time.Now().Add(6*time.Second + httpEngSum(gaps)))
 	var w bytes.Buffer
 	method := "GET"
 	if kind == "connect" {
@@ -706,11 +862,21 @@ func (st *httpEngState) doTunnel(kind, host, path, userTok, upTok, dnTok string)
 		}
 		return fmt.Sprintf("be=- rt=%s st=%d b=%s", rt, resp.StatusCode, bn)
 	}
-	if _, err := c.Write(up); err != nil {
-		return "writeerr"
+	got := make([]byte, 0, len(dn))
+	ups := httpEngSplit(up, rounds)
+	for i, dnp := range httpEngSplit(dn, rounds) {
+		time.Sleep(time.Duration(gaps[2*i]) * time.Millisecond)
+		if _, err := c.Write(ups[i]); err != nil {
+			break
+		}
+		piece := make([]byte, len(dnp))
+		k, err := io.ReadFull(br, piece)
+		got = append(got, piece[:k]...)
+		if err != nil {
+			break
+		}
 	}
-	got := make([]byte, len(dn))
-	n, _ := io.ReadFull(br, got)
+	n := len(got)
 	seen := st.takeSeen(3 * time.Second)
 	if seen == nil {
 		return fmt.Sprintf("be=- rt=%s st=%d lost", rt, resp.StatusCode)
@@ -821,12 +987,16 @@ func httpEngExec(tok []string) string {
 		st.rp.UnRegister(vhost.RouteConfig{Domain: d, Location: l, RouteByHTTPUser: u})
 		delete(st.routes, st.routeKey(d, l, u))
 		return "-"
-	case "req":
+	case "req", "treq":
 		return st.doReq(tok)
 	case "ws":
-		return st.doTunnel("ws", unhx(tok[1]), unhx(tok[2]), tok[3], tok[4], tok[5])
+		return st.doTunnel("ws", unhx(tok[1]), unhx(tok[2]), tok[3], tok[4], tok[5], nil)
 	case "connect":
-		return st.doTunnel("connect", unhx(tok[1]), "", tok[2], tok[3], tok[4])
+		return st.doTunnel("connect", unhx(tok[1]), "", tok[2], tok[3], tok[4], nil)
+	case "tws":
+		return st.doTunnel("ws", unhx(tok[1]), unhx(tok[2]), tok[3], tok[4], tok[5], httpEngGaps(tok[6]))
+	case "tconnect":
+		return st.doTunnel("connect", unhx(tok[1]), "", tok[2], tok[3], tok[4], httpEngGaps(tok[5]))
 	case "silent":
 		return st.doSilent(unhx(tok[1]), unhx(tok[2]))
 	case "plug":
